@@ -232,6 +232,10 @@ func main() {
 				ok, msg := replayer.validate(r.h, s, paramsFor(r.h))
 				if ok {
 					r.validated++
+				} else if msg == "native-assume" {
+					// the harness declares this path irreproducible natively (rt.Assume on
+					// !rt.Symbolic()): not counted, not a failure
+					cnt--
 				} else {
 					r.validationErr = append(r.validationErr, msg)
 					inconcl = append(inconcl, r.h.Name+": encoder validation failed: "+msg)
@@ -936,6 +940,9 @@ func (r *replayer) validate(h *Harness, s *interp.PathSample, params map[string]
 	nr, err := r.run(h, s.Values, params)
 	if err != nil {
 		return false, err.Error()
+	}
+	if nr.verdict == "assume" {
+		return false, "native-assume"
 	}
 	if nr.verdict != "ok" {
 		return false, fmt.Sprintf("witness of a passing path gave native verdict %s %q (values %s)", nr.verdict, firstLine(nr.detail), compactVals(s.Values))
